@@ -112,6 +112,12 @@ def run(ck):
             bad_ret.append(r)
     ck.ob('C04.shape', 'C04.shape/wipe-success-means-gone', not bad_ret, sw.loc(bad_ret[0]) if bad_ret else sw.loc(),
           'secure_wipe_file reports success only when the file did not exist or after it was removed (no early `return true`)')
+    # once the overwrite has started, every way out goes through the remove (a failed pass must not leave the file behind)
+    wit_ = None
+    for w_ in writes:
+        wit_ = wit_ or cfg_sw.must_pass(w_, lambda e: e in removes or any(sw.is_in(x, e) for x in removes) and sw.nodes[e]['k'] in ('ExprWithCleanups',))
+    ck.ob('C04.shape', 'C04.shape/remove-after-any-overwrite', bool(writes) and wit_ is None, sw.loc(writes[0]) if writes else sw.loc(),
+          'after secure_wipe_file has started overwriting, every path to a return passes std::filesystem::remove', wit_)
     ctor = P.fn(CS + 'ChunkStore')
     ck.touch(ctor)
     ok = False
